@@ -145,6 +145,23 @@ template <class E> json state_of(E const& e)
     return a;
 }
 
+// the inverse: an engine whose state words are the given limbs (the constructors only reach {seed, 0, 0, 0})
+template <class E> E forge(json const& flat)
+{
+    using I = EngInfo<E>;
+    using W = typename I::word;
+    W w[I::words];
+    constexpr unsigned per = sizeof(W) / 2;
+    for (int k = 0; k < I::words; ++k) {
+        unsigned long long v = 0;
+        for (unsigned i = 0; i < per; ++i) { v |= (unsigned long long)flat[(size_t)k * per + i].get<int>() << (16 * i); }
+        w[k] = (W)v;
+    }
+    E e {};
+    std::memcpy(&e, w, sizeof(E));
+    return e;
+}
+
 // order-preserving key of a floating-point value (through double: float -> double is exact)
 json fkey(double d)
 {
@@ -285,8 +302,30 @@ template <class E> void statics()
 struct Task {
     std::string eng;
     json seed;
-    int what; // 0 = history, 1 = statics
+    int what; // 0 = history, 1 = statics, 2 = forged state
 };
+
+// a forged state: a few calls, and operator== against copies that differ in exactly one state word
+template <class E> void forged(json const& flat)
+{
+    using I = EngInfo<E>;
+    E e = forge<E>(flat);
+    {
+        E same = forge<E>(flat);
+        eq_event(e, same);
+        constexpr unsigned per = sizeof(typename I::word) / 2;
+        for (int k = 0; k < I::words; ++k) {
+            for (unsigned bit : {0u, 15u}) {
+                json other = flat;
+                // lowest bit of the word's first limb / highest bit of its last limb
+                size_t const idx = (size_t)k * per + (bit == 0u ? 0 : per - 1);
+                other[idx]       = other[idx].get<int>() ^ (bit == 0u ? 1 : 0x8000);
+                eq_event(e, forge<E>(other));
+            }
+        }
+    }
+    for (int i = 0; i < 6; ++i) { emit_step(e); }
+}
 
 template <class F> void with_engine(std::string const& n, F f)
 {
@@ -308,6 +347,10 @@ std::vector<Task> engine_tasks(std::vector<json> const& gen)
     for (char const* n : {"xs16", "xs32", "xs64", "xop", "xopp", "xoss"}) { ts.push_back({n, json::array(), 1}); }
     for (auto const& g : gen) {
         if (g["m"] == "xs16" || g["m"] == "uid") { continue; }
+        if (g["m"] == "state") {
+            for (char const* n : {"xop", "xopp", "xoss"}) { ts.push_back({n, g["seed"], 2}); }
+            continue;
+        }
         ts.push_back({g["m"], g["seed"], 0});
     }
     // a few 16-bit histories (the orbit mode covers every single step) and seeded random seeds for every engine
@@ -331,7 +374,9 @@ int run_engines(std::vector<Task> const& ts, long steps, long start)
         with_engine(t.eng, [&](auto proto) {
             using E = decltype(proto);
             if (t.what == 1) { statics<E>(); }
-            else { history<E>(t.seed, steps); }
+            else if (t.what == 2) {
+                if constexpr (EngInfo<E>::words == 4) { forged<E>(t.seed); }
+            } else { history<E>(t.seed, steps); }
         });
     }
     return 0;
@@ -534,6 +579,20 @@ template <class E> void dist_engine_tasks(std::vector<Fn>& ts, json const& seedl
     ts.push_back([=] { uid_draw<unsigned short>(e, 0, 65535, 8, false); });
 }
 
+// distributions over an engine in a forged state (e.g. the next outputs are exactly 0: canonical value 0.0)
+template <class E> void forged_dist_tasks(std::vector<Fn>& ts, json const& flat)
+{
+    E const e = forge<E>(flat);
+    ts.push_back([=] { canon<float, 24>(e, 4); });
+    ts.push_back([=] { canon<double, 53>(e, 4); });
+    ts.push_back([=] { urd<double>(e, 0.0, 1.0, 4); });
+    ts.push_back([=] { urd<float>(e, -1.0, 1.0, 4); });
+    ts.push_back([=] { bern(e, 0.0, 0, 4); });
+    ts.push_back([=] { bern(e, 1.0, 2, 4); });
+    ts.push_back([=] { uid_draw<int>(e, 0, 9, 4, false); });
+    ts.push_back([=] { uid_draw<short>(e, -2, 5, 4, false); });
+}
+
 bool all_zero(json const& seedl)
 {
     for (auto const& l : seedl) {
@@ -610,6 +669,12 @@ std::vector<Fn> dist_tasks(std::vector<json> const& gen)
     // ("the state must not be everywhere zero"): such an engine returns 0 forever and is not a uniform bit source.
     for (auto const& g : gen) {
         if (g["m"] == "xs16" || g["m"] == "uid" || all_zero(g["seed"])) { continue; }
+        if (g["m"] == "state") {
+            forged_dist_tasks<xop_t>(ts, g["seed"]);
+            forged_dist_tasks<xopp_t>(ts, g["seed"]);
+            forged_dist_tasks<xoss_t>(ts, g["seed"]);
+            continue;
+        }
         with_engine(g["m"], [&](auto proto) { dist_engine_tasks<decltype(proto)>(ts, g["seed"]); });
     }
     return ts;
